@@ -33,9 +33,10 @@ type kind struct {
 	// returns panic message, error, and a canonical rendering of the result.
 	decode func(pts []data.Point, api int, populated bool) (pan string, err error, result string, unchanged bool)
 	// C10
-	roundtrip func(i int, normalise bool) string
-	diffmerge func(i, j int, normalise bool) string
-	desc      func(i int) string
+	roundtrip  func(i int, normalise bool) string
+	diffmerge  func(i, j int, normalise bool) string
+	diffmerge1 func(i, j int, normalise bool, share bool) string
+	desc       func(i int) string
 }
 
 // eqv: deep equality identifying nil and empty slices/maps (the point
@@ -206,8 +207,46 @@ func mkKind[T any](name string, vals []func() T, populated func() T) kind {
 		return msg
 	}
 	k.diffmerge = func(i, j int, normalise bool) string {
+		if m := k.diffmerge1(i, j, normalise, false); m != "" {
+			return m
+		}
+		if m := k.diffmerge1(i, j, normalise, true); m != "" {
+			return m + " (the second value shares the backing array of the first)"
+		}
+		return ""
+	}
+	k.diffmerge1 = func(i, j int, normalise bool, share bool) string {
 		a := W[T]{ID: "n", Parent: "p", V: vals[i]()}
 		b := W[T]{ID: "n", Parent: "p", V: vals[j]()}
+		// slices: when the second value is a prefix of the first or extends it, build it the way code usually
+		// does — as a re-slice / an append into spare capacity of the SAME backing array (the values are what they
+		// were; only the memory is shared); both forms are run for every pair
+		if share {
+			av, bv := reflect.ValueOf(&a.V).Elem(), reflect.ValueOf(&b.V).Elem()
+			if av.Kind() == reflect.Slice && !av.IsNil() && !bv.IsNil() && av.Len() > 0 {
+				n, mlen := bv.Len(), av.Len()
+				shared := reflect.MakeSlice(av.Type(), mlen, mlen+n+1)
+				reflect.Copy(shared, av)
+				prefix := true
+				for q := 0; q < n && q < mlen; q++ {
+					if !reflect.DeepEqual(av.Index(q).Interface(), bv.Index(q).Interface()) {
+						prefix = false
+					}
+				}
+				if prefix {
+					av.Set(shared)
+					if n <= mlen {
+						bv.Set(shared.Slice(0, n)) // shrink by re-slicing
+					} else {
+						ext := shared
+						for q := mlen; q < n; q++ {
+							ext = reflect.Append(ext, bv.Index(q)) // grows into the spare capacity
+						}
+						bv.Set(ext)
+					}
+				}
+			}
+		}
 		var msg string
 		if p := mc.Safely(func() {
 			ne, err := data.Encode(a)
